@@ -150,12 +150,16 @@ func runC09(c *Ctx) {
 			var known []string
 			var sample map[string]interface{}
 			slowSrc := rep%3 == 1
+			slowDst := (rep+len(jd.name))%3 == 2 // the destination's first list is still in flight while the source changes
 			emptySrc := (rep+len(jd.name))%2 == 1 // no source object exists when the join is first created
 			dl := sched.Bubble(c.T, func() {
 				srcSrv, dstSrv := fakeapi.New(), fakeapi.New()
 				srcSrv.Kind, dstSrv.Kind = jd.srcKind, jd.dstKind
 				if slowSrc {
 					srcSrv.ListLatency = func(int) time.Duration { return 5 * time.Second }
+				}
+				if slowDst {
+					dstSrv.ListLatency = func(int) time.Duration { return 5 * time.Second }
 				}
 				if !emptySrc {
 					srcSrv.Put(proto(jd.srcKind, 1, 1, 0))
@@ -200,6 +204,18 @@ func runC09(c *Ctx) {
 					js, err := j.subscribe()
 					if err == nil {
 						subs = append(subs, js)
+					}
+					// the source changes (a new source object that selects, the old one
+					// re-targeted) while the destination is not ready yet
+					if slowDst && cycle == 0 {
+						pert.Barrier()
+						if !isClosed(dst.ready()) && isClosed(j.ready()) {
+							problems = append(problems, "the join is ready although its destination is not")
+						}
+						srcSrv.Put(proto(jd.srcKind, 1, 1, 2))
+						srcSrv.Put(proto(jd.srcKind, 2, 2, 1))
+						pert.Barrier()
+						time.Sleep(6 * time.Second)
 					}
 					// ready only after source and destination are ready
 					if slowSrc && cycle == 0 {
@@ -311,7 +327,7 @@ func runC09(c *Ctx) {
 			})
 			runs++
 			c.Rep.Evaluations++
-			replay := map[string]interface{}{"join": jd.name, "seed": seed, "slow_source_list": slowSrc, "source_initially_empty": emptySrc}
+			replay := map[string]interface{}{"join": jd.name, "seed": seed, "slow_source_list": slowSrc, "slow_destination_list": slowDst, "source_initially_empty": emptySrc}
 			if dl != "" {
 				replay["deadlock"] = dl
 				c.Violation("", "hang (bubble deadlock) in join "+jd.name, replay)
@@ -422,6 +438,6 @@ func runC09(c *Ctx) {
 		}
 		c.DistinctCase(fmt.Sprint("IngressPods", seed))
 	}
-	c.Rep.Rule = "all eight generated joins and the double join IngressPods over fake API servers for source and destination (typed base controllers, virtual time, perturbation): source histories (sources appear, change selector, disappear) and destination histories (labels and namespaces change) at arbitrary relative timing; three create/use/close cycles of the join over long-lived base controllers (in the second cycle the context given to the constructor is cancelled right after construction: it only carries the logger). At barriers: join cache = destination objects selected by a current source object (ownership predicate written directly; also vs the extracted constructor + accept), ready only after source and destination (slow source list variant) and ready also when no source object exists at creation, Close stops everything the join created (goroutine inventory back to baseline each cycle) and leaves the bases running and current. Non-trivial = every (join, scenario)."
+	c.Rep.Rule = "all eight generated joins and the double join IngressPods over fake API servers for source and destination (typed base controllers, virtual time, perturbation): source histories (sources appear, change selector, disappear) and destination histories (labels and namespaces change) at arbitrary relative timing; three create/use/close cycles of the join over long-lived base controllers (in the second cycle the context given to the constructor is cancelled right after construction: it only carries the logger). At barriers: join cache = destination objects selected by a current source object (ownership predicate written directly; also vs the extracted constructor + accept), ready only after source and destination (slow source list variant; slow destination list variant with the source changing before the destination is ready) and ready also when no source object exists at creation, Close stops everything the join created (goroutine inventory back to baseline each cycle) and leaves the bases running and current. Non-trivial = every (join, scenario)."
 	c.Rep.Stats["runs"] = runs
 }
